@@ -51,6 +51,14 @@ class Engine:
                 bn = b.id if isinstance(b, ast.Name) else (b.attr if isinstance(b, ast.Attribute) else None)
                 if bn:
                     self.exc_classes.setdefault(cname, bn) if (bn in self.exc_classes or bn.endswith("Error") or bn.endswith("Exception")) else None
+        for mod in self.index.modules.values():      # exception classes nested inside classes (e.g. HedSchema._TagIdentifyError)
+            for cnode in mod.classes.values():
+                for st in cnode.body:
+                    if isinstance(st, ast.ClassDef):
+                        for b in st.bases:
+                            bn = b.id if isinstance(b, ast.Name) else None
+                            if bn in self.exc_classes:
+                                self.exc_classes.setdefault(st.name, bn)
         self.exc_classes.setdefault("LockException", "Exception")
         self.exc_classes.setdefault("HTTPError", "OSError")
         self.exc_classes.setdefault("URLError", "OSError")
@@ -185,7 +193,43 @@ class Engine:
         ctx.assume(fn(fn(t)) == fn(t))
 
     def dict_view(self, interp, cell, name):
-        raise Unsupported(f"iteration over symbolic dict .{name}()")
+        """items()/keys()/values() of a symbolic dict: a list in some fixed order that enumerates exactly the domain
+        (distinct keys, every key present, values as stored).  Insertion order itself is not modelled."""
+        ctx = interp.ctx
+        ty = cell.sym.ty
+        cache = getattr(ctx, "dict_views", None)
+        if cache is None:
+            cache = ctx.dict_views = {}
+        ck = cell.sym.t.sexpr()
+        if ck not in cache:
+            kty, vty = ty.args
+            lty = TList(TTuple(kty, vty))
+            ls = sort_of(lty)
+            ms = sort_of(ty)
+            ts = sort_of(TTuple(kty, vty))
+            r = z3.Const(ctx.fresh_name("items"), ls)
+            i, j = z3.Int(ctx.fresh_name("i")), z3.Int(ctx.fresh_name("j"))
+            key = z3.Const(ctx.fresh_name("key"), sort_of(kty))
+            pos = z3.Function(ctx.fresh_name("pos"), sort_of(kty), z3.IntSort())
+            m = cell.sym.t
+            ctx.assume(ls.len(r) >= 0)
+            elem = lambda x: z3.Select(ls.data(r), x)
+            ctx.assume(z3.ForAll([i], z3.Implies(z3.And(0 <= i, i < ls.len(r)),
+                                                 z3.And(z3.Select(ms.dom(m), ts.accessor(0, 0)(elem(i))),
+                                                        z3.Select(ms.val(m), ts.accessor(0, 0)(elem(i))) == ts.accessor(0, 1)(elem(i)),
+                                                        pos(ts.accessor(0, 0)(elem(i))) == i)),
+                                 patterns=[elem(i)]))
+            ctx.assume(z3.ForAll([key], z3.Implies(z3.Select(ms.dom(m), key),
+                                                   z3.And(0 <= pos(key), pos(key) < ls.len(r),
+                                                          ts.accessor(0, 0)(elem(pos(key))) == key)),
+                                 patterns=[z3.Select(ms.dom(m), key)]))
+            cache[ck] = (r, lty)
+        r, lty = cache[ck]
+        items = Cell("list", sym=SV(lty, r), fresh=True)
+        if name == "items":
+            return items
+        from .access import ProjV
+        return ProjV(items, 0 if name == "keys" else 1)
 
     def with_enter(self, interp, v):
         if isinstance(v, Opaque):
@@ -418,11 +462,17 @@ class Engine:
                 if ct.returns not in (None, "None", "Opaque") and val is not None and not isinstance(val, Opaque):
                     rty = interp.ptype(ct.returns)
                     try:
-                        if isinstance(val, Cell):
-                            if val.sym is None:
-                                interp.symbolise(val, rty)
-                        else:
-                            val = ctx.wrap(ctx.term(val, rty), rty)
+                        def conv(v, ty):
+                            if ty == OPQ:
+                                return v
+                            if ty.name == "Tuple" and isinstance(v, tuple) and len(v) == len(ty.args):
+                                return tuple(conv(x, t) for x, t in zip(v, ty.args))
+                            if isinstance(v, Cell):
+                                if v.sym is None:
+                                    interp.symbolise(v, ty)
+                                return v
+                            return ctx.wrap(ctx.term(v, ty), ty)
+                        val = conv(val, rty)
                         ctx.ghost["result"] = val
                     except Unsupported as u:
                         ctx.undecided("ensures", "result-type", str(u))
@@ -433,8 +483,8 @@ class Engine:
                 for lbl, e in ct.lets.items():
                     ctx.ghost[lbl] = interp.eval_spec_text(e)
                 for lbl, e in ct.ensures.items():
-                    if lbl.startswith("exc:"):
-                        continue
+                    if lbl.startswith("exc:") or lbl.startswith("bounded:"):
+                        continue        # bounded: clauses are checked only by the concrete bounded search (never counted as proved)
                     try:
                         g = ctx.zbool(ctx.truth(interp.eval_spec_text(e)))
                     except Unsupported as u:
@@ -591,29 +641,42 @@ class Engine:
         return axioms
 
     def solve(self, ob, params=None):
+        """z3 with a short budget, then cvc5 (strings), then z3 with the full budget.  unknown is never a verdict."""
         if ob.verdict is not None:
             return ob
         t0 = time.time()
-        s = z3.Solver()
-        s.set("timeout", self.timeout_ms if ob.kind != "canary" else 1500)
-        s.add(*ob.assumptions)
-        s.add(z3.Not(ob.goal))
-        s.add(*self.unfold_axioms(list(ob.assumptions) + [ob.goal] + list(ob.hints)))
-        r = s.check()
+        extra = self.unfold_axioms(list(ob.assumptions) + [ob.goal] + list(ob.hints))
+
+        def z3_try(ms):
+            s = z3.Solver()
+            s.set("timeout", ms)
+            s.add(*ob.assumptions)
+            s.add(z3.Not(ob.goal))
+            s.add(*extra)
+            return s, s.check()
+        budget = self.timeout_ms if ob.kind != "canary" else 1500
+        first = min(2500, budget)
+        s, r = z3_try(first)
         ob.backend = "z3-" + z3.get_version_string()
-        if r == z3.unsat:
-            ob.verdict = "unsat"
-        elif r == z3.sat:
-            ob.verdict = "sat"
-            try:
-                ob.model = s.model()
-            except z3.Z3Exception:
-                ob.model = None
-        else:
+        if r == z3.unknown and ob.kind != "canary":
             ob.verdict = "unknown"
             ob.detail = s.reason_unknown()
-            if ob.kind != "canary":
-                self.try_cvc5(ob, s)
+            self.try_cvc5(ob, s)
+            if ob.verdict == "unknown" and budget > first:
+                s, r = z3_try(budget)
+                ob.backend = "z3-" + z3.get_version_string()
+        if ob.verdict != "unsat" or ob.backend.startswith("z3"):
+            if r == z3.unsat:
+                ob.verdict = "unsat"
+            elif r == z3.sat:
+                ob.verdict = "sat"
+                try:
+                    ob.model = s.model()
+                except z3.Z3Exception:
+                    ob.model = None
+            elif ob.verdict is None or ob.verdict == "unknown":
+                ob.verdict = "unknown"
+                ob.detail = (ob.detail or "") + " " + s.reason_unknown()
         ob.ms = int((time.time() - t0) * 1000)
         return ob
 
